@@ -2,7 +2,8 @@
 From Coq Require Import NArith List.
 From DV Require Import Base.Outcome Base.Bytes Base.Names Base.PName C02.Gen C02.Model
   C02.ProofsBasic C02.ProofsClone C02.ProofsRun C02.ProofsName C02.ProofsComp C02.ProofsStatic C02.ProofsHash C02.ProofsTop
-  C02.ProofsLayout C02.ProofsRead C02.ProofsWrite C02.ProofsBuild C02.ProofsTotal C02.ProofsX.
+  C02.ProofsLayout C02.ProofsRead C02.ProofsWrite C02.ProofsBuild C02.ProofsTotal C02.ProofsX C02.SchemaModel C02.ProofsSchema C02.ProofsGrow C02.ProofsReuse.
+From DV Require C05.Schema C05.ProofsB C05.Model.
 Import ListNotations.
 Local Open Scope N_scope.
 
@@ -190,3 +191,93 @@ Theorem C02_clone_from_keeps_writer_invariants : forall c oh opts,
   WSpec c (compose_opt_clone c oh opts).
 Proof. exact compose_opt_clone_spec. Qed.
 Print Assumptions C02_clone_from_keeps_writer_invariants.
+
+(* Typed record data, through the record-data schemas of C05: a value of any
+   C05 schema (without a cross-field check; all rows of C05's table of record
+   types are such) pushed as a record - its compressible names through the
+   compressor, its other names in full, every other field in its C05 wire
+   form - on any target with any compressor, is read back by the record
+   reader, and C05's own parse_rdata (with the message reader as name decoder)
+   returns the same value from the octets in the message, names up to ASCII
+   case.  The length prefix is patched in afterwards exactly when C05's rdlen
+   answers None. *)
+Theorem C02_schema_record_reread : forall c owner ty cls ttl s v w w',
+  WG c ok12 w -> 12 <= mlen (w_buf w) ->
+  C05.ProofsB.wf_schema_full s = true -> C05.Schema.s_post s = C05.Schema.PNone -> C05.Schema.wf_value s v = true ->
+  name_ok owner -> ty < 65536 -> cls < 65536 -> ttl < 4294967296 ->
+  compose_record c (schema_record owner ty cls ttl s v) w = WOk w' ->
+  WG c ok12 w' /\
+  exists r' e1 v',
+    rd_record (w_buf w') (mlen (w_buf w)) (map shape_of (items_of (C05.Schema.s_fields s) v)) = Ok (r', mlen (w_buf w')) /\
+    record_eqb r' (schema_record owner ty cls ttl s v) = true /\
+    (exists n', decode_name (w_buf w') (mlen (w_buf w)) (mlen (w_buf w')) = Ok (n', e1) /\ name_eqb n' owner = true) /\
+    C05.Schema.parse_rdata C05.Schema.pname_dec s (w_buf w') (e1 + 10) (mlen (w_buf w')) = Ok v' /\ Forall2 fval_eq v' v.
+Proof. exact schema_record_reread. Qed.
+Print Assumptions C02_schema_record_reread.
+
+Theorem C02_schema_prefix_is_rdlen_none : forall c owner ty cls ttl s v,
+  C05.Schema.wf_value s v = true ->
+  uses_prefix c (schema_record owner ty cls ttl s v) =
+  match C05.Schema.rdlen s (can_compress c) v with Ok None => true | _ => false end.
+Proof. exact uses_prefix_is_rdlen_none. Qed.
+Print Assumptions C02_schema_prefix_is_rdlen_none.
+
+(* ... and such records are admissible operations of C02_build_parse_total. *)
+Theorem C02_schema_record_admissible : forall owner ty cls ttl s v,
+  C05.Schema.wf_value s v = true -> name_ok owner -> ty < 65536 -> cls < 65536 -> ttl < 4294967296 ->
+  wf_op_sized (OpR (schema_record owner ty cls ttl s v)).
+Proof. exact schema_record_wf_op. Qed.
+Print Assumptions C02_schema_record_admissible.
+
+(* The driver's entry point for typed records re-derives exactly the schema
+   record (C05 parse after compose). *)
+Theorem C02_typed_record_fixpoint : forall owner t cls ttl s v,
+  C05.Model.schema_of t = Some s -> C05.Schema.wf_value s v = true ->
+  c02_typed_record (schema_record owner t cls ttl s v) = (schema_record owner t cls ttl s v, true).
+Proof. exact typed_record_fixpoint. Qed.
+Print Assumptions C02_typed_record_fixpoint.
+
+(* The hashbrown table behind HashCompressor: the entry hash and the query
+   hash are hash_one((label, tail)) with Label::hash feeding the length and
+   the lower-cased octets (T1: hash_key_anchored), so whatever entries
+   HashTable::find probes - any capacity, after any number of growth rehashes,
+   with any hasher keys H - as long as they are entries of the table and
+   include every entry hashing like the query, the lookup returns what the
+   model's walk over the insertion-ordered list returns, in every reachable
+   state. *)
+Theorem C02_hash_growth_unobservable : forall c ops s0 s a ws H l pos probe,
+  init c = Some s0 -> Forall wf_op ops -> run_acc c s0 acc0 ops = (s, a, ws) -> all_alive ws ->
+  probes H (w_buf (b_w s)) (mlen (w_buf (b_w s))) (w_hash (b_w s)) probe l pos ->
+  hash_find (w_buf (b_w s)) (mlen (w_buf (b_w s))) probe l pos =
+  hash_find (w_buf (b_w s)) (mlen (w_buf (b_w s))) (w_hash (b_w s)) l pos.
+Proof. exact hash_growth_unobservable. Qed.
+Print Assumptions C02_hash_growth_unobservable.
+
+(* the chained-bucket instance: nb buckets, the bucket of the query's hash in any order *)
+Theorem C02_hash_buckets_unobservable : forall c ops s0 s a ws H nb l pos bucket,
+  init c = Some s0 -> Forall wf_op ops -> run_acc c s0 acc0 ops = (s, a, ws) -> all_alive ws ->
+  (forall e, In e bucket <-> In e (w_hash (b_w s)) /\
+             bucket_of H (w_buf (b_w s)) (mlen (w_buf (b_w s))) nb e = key_hash H l pos mod nb) ->
+  hash_find (w_buf (b_w s)) (mlen (w_buf (b_w s))) bucket l pos =
+  hash_find (w_buf (b_w s)) (mlen (w_buf (b_w s))) (w_hash (b_w s)) l pos.
+Proof. exact hash_buckets_unobservable. Qed.
+Print Assumptions C02_hash_buckets_unobservable.
+
+Theorem C02_hash_key_anchored : hash_key_anchored = true.
+Proof. reflexivity. Qed.
+Print Assumptions C02_hash_key_anchored.
+
+(* For import by other developments (Answer::to_message, copy_records, TSIG):
+   questions, answers, authority and additional records pushed in this order
+   through the builder's own section conversions, every push accepted: the
+   message reads back as exactly these four lists (names up to ASCII case), on
+   every target, with every compressor. *)
+Theorem C02_pushes_reread : forall c qs an ns ar s0 s a ws,
+  init c = Some s0 ->
+  Forall wf_q qs -> Forall wf_r_sized an -> Forall wf_r_sized ns -> Forall wf_r_sized ar ->
+  run_acc c s0 acc0 (ops_of_sections qs an ns ar) = (s, a, ws) ->
+  Forall accepted ws ->
+  a = mkAcc qs an ns ar /\
+  exists a', rd_message (msg_of s) (mkAcc qs an ns ar) = Ok a' /\ acc_eqb a' (mkAcc qs an ns ar) = true.
+Proof. exact pushes_reread. Qed.
+Print Assumptions C02_pushes_reread.
